@@ -248,6 +248,37 @@ def run(rep):
                 rep.violation("T3-division", key, R.fn_where(f, dv), {"expression": R.key(dv)[:200], "divisor": dk,
                                                                        "problem": "no dominating test that the divisor is non-zero (a constant image makes max == min)"})
     rep.floor("otsu_impl", 2)
+    # ---------------------------------------------------------------- T11 the range scan of otsu_impl
+    rep.rule("T11 otsu_impl, range scan of the wide / signed branch: the update of the minimum (v < lo -> lo = v) and of the maximum (v > hi -> hi = v) are independent tests; "
+             "the maximum's update is not nested under the failure of the minimum's test (lo starts at the type maximum, so the first pixel always lowers it and would "
+             "never be offered to hi: a maximum that occurs only at pixel (0,0) is lost and the histogram index (v - lo) * 255 / (hi - lo) leaves [0, 255])")
+    seen11 = False
+    for f in fns:
+        if not f["name"].endswith("detail::otsu_impl") or f.get("body") is None or seen11:
+            continue
+        g = R.canonize(f)
+        ups = []
+        for k, x, pth in R.effects(g["body"]):
+            if x.get("k") != "Assign" or not re.fullmatch(r"%\d+", R.key(x["l"])):
+                continue
+            lhs, rhs = R.key(x["l"]), R.key(x["r"])
+            gs = R.guards(pth)
+            mine = [(op, l, r) for op, l, r in gs if {l, r} == {lhs, rhs}]
+            if len(mine) == 1 and mine[0][0] in ("<", ">"):
+                lower = (mine[0][0] == "<" and mine[0][1] == rhs) or (mine[0][0] == ">" and mine[0][1] == lhs)
+                other = [(op, l, r) for op, l, r in gs if rhs in (l, r) and lhs not in (l, r) and re.fullmatch(r"%\d+", l if r == rhs else r)]
+                ups.append(("min" if lower else "max", lhs, rhs, other))
+        if len(ups) < 2:
+            continue
+        seen11 = True
+        rep.count("obligations:T11")
+        dep = [{"update of": u[0], "variable": u[1], "also conditioned on": [" ".join(o) for o in u[3]]} for u in ups if u[3]]
+        if dep:
+            rep.violation("T11-range-scan", "T11:otsu_impl:range scan", R.fn_where(f), {"dependent updates": dep,
+                          "example": "gray16 image {60000, 1, 0, 1, 0, 1}: 60000 lowers the minimum and is never compared with the maximum; the histogram index of the first pixel is far outside the 256 bins"})
+        else:
+            rep.ok("T11-range-scan", "T11:otsu_impl:range scan", [(u[0], u[1]) for u in ups])
+    rep.floor("obligations:T11", 1)
     # ---------------------------------------------------------------- T4 morph_impl
     rep.rule("T4 morph_impl: source read src_view(c,r) only under 0<=r<src.height() && 0<=c<src.width(); dilation->max, erosion->min; dst written at the loop position")
     for f in fns:
